@@ -4,7 +4,7 @@ Cuts common to all entries: the objects (`self`, `rcvd_pdu`, `send_pdu`) are not
 translated statements read is a parameter (`binds`); queues, condition variables and the PDU constructors are
 outside the translated slices.
 """
-from translate_fn import Spec, INT, BOOL, BYTES, STR, ANY
+from translate_fn import Spec, INT, BOOL, BYTES, STR, ANY, OPT
 
 GROUP = "Tco"
 ORDER = 60
@@ -12,6 +12,9 @@ F = "llcp/tco.py"
 DLC = "DataLinkConnection."
 _SOCKOPT = [("self.send_miu", "send_miu", INT), ("self.recv_miu", "recv_miu", INT),
             ("self.send_buf", "send_buf", INT), ("self.recv_buf", "recv_buf", INT)]
+
+_CONF = [("self.recv_ack", "recv_ack", INT), ("self.recv_confs", "recv_confs", INT)]
+_CONF_ST = ["self.recv_ack", "self.recv_confs"]
 
 SPECS = [
     Spec(GROUP, "tco_send_window_slots", F, DLC + "send_window_slots", [],
@@ -31,13 +34,150 @@ SPECS = [
          binds=[("rcvd_pdu.name", "name", STR), ("rcvd_pdu.data", "data", BYTES), ("self.recv_miu", "recv_miu", INT)],
          stmts=(0, 2), ret=ANY,
          note="cut: the two filters in front of `super().enqueue(rcvd_pdu)`; False = PDU ignored, None = handed on"),
+    # --- DataLinkConnection.send (C05 window / sequence numbers, C10 EMSGSIZE)
+    Spec(GROUP, "tco_dlc_send_check", F, DLC + "send", [("message", BYTES)], binds=[("self.send_miu", "send_miu", INT)],
+         path=[(0, "body")], stmts=[1],
+         note="cut: statement 1 inside `with self.send_token`: the MIU test `len(message) > self.send_miu` -> EMSGSIZE"),
+    Spec(GROUP, "tco_dlc_send_seq", F, DLC + "send", [], binds=[("self.send_cnt", "send_cnt", INT)],
+         stores=["send_pdu.ns", "self.send_cnt"], path=[(0, "body"), (4, "body")], stmts=(1, 3),
+         result=["send_pdu.ns", "self.send_cnt"],
+         note="cut: inside `if self.state.ESTABLISHED`: N(S) := V(S); V(S) := V(S) + 1 mod 16; result (N(S), V(S))"),
+    # --- DataLinkConnection._enqueue_state_established
+    Spec(GROUP, "tco_est_acks", F, DLC + "_enqueue_state_established", [],
+         binds=[("rcvd_pdu.nr", "nr", INT), ("self.send_ack", "send_ack", INT)],
+         path=[(3, "body"), (0, "body")], stmts=[0], result=["acks"],
+         note="cut: `acks = (rcvd_pdu.nr - self.send_ack) % 16` of the N(R) processing of I / RR / RNR PDUs"),
+    Spec(GROUP, "tco_est_recv_cnt", F, DLC + "_enqueue_state_established", [],
+         binds=[("self.recv_cnt", "recv_cnt", INT)], stores=["self.recv_cnt"],
+         path=[(4, "body"), (0, "body")], stmts=[0], result=["self.recv_cnt"],
+         note="cut: V(R) := V(R) + 1 mod 16 for an accepted I PDU"),
+    # --- acknowledgement generation: the same two statements at three places
+    Spec(GROUP, "tco_sendack_confirm", F, DLC + "sendack", [], binds=_CONF, stores=_CONF_ST,
+         path=[(0, "body"), (0, "body"), (0, "body")], stmts=(1, 3), result=_CONF_ST,
+         note="cut: voluntary ack: V(RA) := V(RA) + recv_confs mod 16; recv_confs := 0; result (V(RA), recv_confs)"),
+    Spec(GROUP, "tco_deq_piggyback", F, DLC + "dequeue", [],
+         binds=[("self.recv_confs", "recv_confs", INT), ("self.recv_cnt", "recv_cnt", INT), ("self.recv_ack", "recv_ack", INT)],
+         stores=["self.recv_ack", "self.recv_confs", "send_pdu.nr"], drop=["self.log"],
+         path=[(0, "body"), (2, "body"), (2, "body")], stmts=(0, 2),
+         result=["send_pdu.nr", "self.recv_ack", "self.recv_confs"],
+         note="cut: inside `if send_pdu.name == 'I' and self.state.ESTABLISHED`: the piggy-backed acknowledgement "
+              "and N(R) of the outgoing I PDU; `self.log(..)` dropped; result (N(R), V(RA), recv_confs)"),
+    Spec(GROUP, "tco_deq_necessary_confirm", F, DLC + "dequeue", [], binds=_CONF, stores=_CONF_ST,
+         path=[(0, "body"), (2, "orelse"), (0, "body")], stmts=(1, 3), result=_CONF_ST,
+         note="cut: necessary ack (receive window exhausted), same two statements"),
+    # --- LogicalDataLink.sendto (C10, C17)
+    Spec(GROUP, "tco_ldl_sendto_check", F, "LogicalDataLink.sendto", [("message", BYTES), ("dest", INT)],
+         binds=[("self.state.SHUTDOWN", "shutdown", BOOL), ("self.peer", "peer", INT), ("self.send_miu", "send_miu", INT)],
+         path=[(0, "body")], stmts=(0, 3),
+         note="cut: the three checks in front of the UI PDU constructor; `self.peer is None` is passed as 0 "
+              "(both are falsy and `dest != self.peer` is not evaluated then)"),
+    # --- batch 2
+    Spec(GROUP, "tco_dlc_send_state", F, DLC + "send", [("message", BYTES)],
+         binds=[("self.state.ESTABLISHED", "established", BOOL), ("self.state.CLOSE_WAIT", "close_wait", BOOL),
+                ("self.send_miu", "send_miu", INT)],
+         path=[(0, "body")], stmts=(0, 2), drop=["self.err"],
+         note="cut: statements 0-1 inside `with self.send_token`: state check (ENOTCONN / EPIPE) and MIU test; "
+              "`self.err(..)` (logging) dropped"),
+    Spec(GROUP, "tco_dlc_send_wait_cond", F, DLC + "send", [],
+         binds=[("self.send_window_slots", "slots", INT), ("self.state.ESTABLISHED", "established", BOOL)],
+         expr="self.send_window_slots == 0 and self.state.ESTABLISHED",
+         note="cut: the condition of the `while` that waits for a free send window slot; the property "
+              "`send_window_slots` is a parameter (tco_send_window_slots)"),
+    Spec(GROUP, "tco_dlc_send_dontwait", F, DLC + "send", [("flags", INT)],
+         path=[(0, "body"), (2, "body")], stmts=[0],
+         note="cut: first statement of that loop: MSG_DONTWAIT -> EWOULDBLOCK"),
+    Spec(GROUP, "tco_est_nr", F, DLC + "_enqueue_state_established", [],
+         binds=[("rcvd_pdu.name", "name", STR), ("rcvd_pdu.nr", "nr", INT), ("self.send_ack", "send_ack", INT),
+                ("self.acks_recvd", "acks_recvd", INT), ("self.mode.SEND_BUSY", "send_busy", BOOL)],
+         stores=["self.acks_recvd", "self.send_ack", "self.mode.SEND_BUSY"],
+         drop=["self.acks_ready.notify_all", "self.send_token.notify"],
+         stmts=[3], result=["self.acks_recvd", "self.send_ack", "self.mode.SEND_BUSY"],
+         note="cut: statement 3, the N(R) processing of I / RR / RNR; notify calls dropped; "
+              "result (acks_recvd, V(SA), SEND_BUSY)"),
+    Spec(GROUP, "tco_est_check", F, DLC + "_enqueue_state_established", [],
+         binds=[("rcvd_pdu.data", "data", BYTES), ("rcvd_pdu.ns", "ns", INT), ("self.recv_miu", "recv_miu", INT),
+                ("self.recv_cnt", "recv_cnt", INT),
+                ("pdu.FrameReject.from_pdu(rcvd_pdu, flags='I', dlc=self)", "frmr_i", INT),
+                ("pdu.FrameReject.from_pdu(rcvd_pdu, flags='S', dlc=self)", "frmr_s", INT)],
+         path=[(0, "body")], stmts=(0, 2), result=["frmr"], ret=OPT(INT),
+         note="cut: inside `if rcvd_pdu.name == 'I'`: which frame reject (if any) an I PDU provokes; the two "
+              "`FrameReject.from_pdu` calls are parameters (markers for the I and the S flag); result frmr"),
+    Spec(GROUP, "tco_dlc_recv_confs", F, DLC + "recv", [],
+         binds=[("self.recv_confs", "recv_confs", INT), ("self.recv_win", "recv_win", INT)], stores=["self.recv_confs"],
+         path=[(0, "body"), (2, "body")], stmts=(0, 2), drop=["self.err"], result=["self.recv_confs"],
+         note="cut: inside `if rcvd_pdu.name == 'I'`: confirmation counting of recv(); result recv_confs"),
+    Spec(GROUP, "tco_dequeue_fit", F, "TransmissionControlObject.dequeue", [("miu_size", OPT(INT)), ("icv_size", INT)],
+         binds=[("send_pdu.name", "name", STR), ("len(send_pdu)", "pdu_len", INT),
+                ("send_pdu.header_size", "header_size", INT)],
+         path=[(0, "body")], stmts=(1, 3), drop=["self.send_queue.appendleft"], result=["pdu_size"], ret=OPT(INT),
+         note="cut: statements 1-2 inside `with self.lock`: size of the popped PDU and the MIU test; "
+              "`len(send_pdu)` is a parameter; None = requeued (`return None`), else pdu_size"),
+    Spec(GROUP, "tco_enqueue_room", F, "TransmissionControlObject.enqueue", [],
+         binds=[("len(self.recv_queue)", "queued", INT), ("self.recv_buf", "recv_buf", INT)],
+         path=[(0, "body")], drop=["self.recv_queue.append", "self.recv_ready.notify"],
+         note="cut: the body of `with self.lock`; `len(self.recv_queue)` is a parameter, append/notify dropped"),
+    Spec(GROUP, "tco_dlc_setsockopt", F, DLC + "setsockopt", [("option", INT), ("value", INT)],
+         binds=[("self.state.CLOSED", "closed", BOOL), ("self.recv_miu", "recv_miu", INT),
+                ("self.recv_win", "recv_win", INT), ("self.recv_buf", "recv_buf", INT),
+                ("self.mode.RECV_BUSY", "recv_busy", BOOL)],
+         stores=["self.recv_miu", "self.recv_win", "self.recv_buf", "self.mode.RECV_BUSY"],
+         path=[(0, "body")], stmts=(0, 3),
+         result=["self.recv_miu", "self.recv_win", "self.recv_buf", "self.mode.RECV_BUSY"],
+         note="cut: statements 0-2 inside `with self.lock` (SO_RCVMIU, SO_RCVBUF, SO_RCVBSY); the fall-through "
+              "to `super().setsockopt` is not translated; result (recv_miu, recv_win, recv_buf, RECV_BUSY)"),
+    Spec(GROUP, "tco_sendack_cond", F, DLC + "sendack", [],
+         binds=[("self.recv_confs", "recv_confs", INT), ("self.recv_cnt", "recv_cnt", INT), ("self.recv_ack", "recv_ack", INT)],
+         expr="self.recv_confs and self.recv_cnt != self.recv_ack", ret=BOOL,
+         note="cut: truth value of the test for a voluntary acknowledgement"),
+    Spec(GROUP, "tco_deq_necessary_cond", F, DLC + "dequeue", [],
+         binds=[("self.state.ESTABLISHED", "established", BOOL), ("self.recv_confs", "recv_confs", INT),
+                ("self.recv_window_slots", "slots", INT)],
+         expr="self.state.ESTABLISHED and self.recv_confs and (self.recv_window_slots == 0)", ret=BOOL,
+         note="cut: truth value of the test for a necessary acknowledgement; the property `recv_window_slots` "
+              "is a parameter (tco_recv_window_slots)"),
+    # --- state checks of the socket calls and poll()
+    Spec(GROUP, "tco_poll_send_ready", F, "TransmissionControlObject.poll", [],
+         binds=[("len(self.send_queue)", "queued", INT), ("self.send_buf", "send_buf", INT)],
+         expr="len(self.send_queue) < self.send_buf", note="cut: result of poll('send'); the queue length is a parameter"),
+    Spec(GROUP, "tco_poll_acks", F, DLC + "_poll", [], binds=[("self.acks_recvd", "acks_recvd", INT)],
+         stores=["self.acks_recvd"], path=[(1, "orelse"), (0, "orelse"), (0, "body"), (0, "body")], stmts=(1, 3),
+         note="cut: poll('acks') after the wait: statements 1-2 inside `with self.acks_ready`; the bool result"),
+    Spec(GROUP, "tco_poll_acks_dec", F, DLC + "_poll", [], binds=[("self.acks_recvd", "acks_recvd", INT)],
+         stores=["self.acks_recvd"], path=[(1, "orelse"), (0, "orelse"), (0, "body"), (0, "body"), (1, "body")],
+         stmts=[0], result=["self.acks_recvd"], note="cut: the decrement of acks_recvd in that branch"),
+    Spec(GROUP, "tco_dlc_listen", F, DLC + "listen", [("backlog", INT)],
+         binds=[("self.state.SHUTDOWN", "shutdown", BOOL), ("self.state.CLOSED", "closed", BOOL),
+                ("self.recv_buf", "recv_buf", INT)],
+         stores=["self.state.LISTEN", "self.recv_buf"], drop=["self.err"], path=[(0, "body")],
+         result=["self.recv_buf"], note="cut: body of `with self.lock`: ESHUTDOWN / ENOTSUP, then recv_buf := backlog"),
+    Spec(GROUP, "tco_dlc_connect_state", F, DLC + "connect", [],
+         binds=[("self.state.CLOSED", "closed", BOOL), ("self.state.ESTABLISHED", "established", BOOL),
+                ("self.state.CONNECT", "connecting", BOOL)],
+         drop=["self.err"], path=[(0, "body")], stmts=[0],
+         note="cut: statement 0 inside `with self.lock`: EISCONN / EALREADY / EPIPE unless CLOSED"),
+    Spec(GROUP, "tco_dlc_accept_state", F, DLC + "accept", [],
+         binds=[("self.state.SHUTDOWN", "shutdown", BOOL), ("self.state.LISTEN", "listening", BOOL)],
+         drop=["self.err"], path=[(0, "body")], stmts=(0, 2),
+         note="cut: statements 0-1 inside `with self.lock`: ESHUTDOWN / EINVAL unless LISTEN"),
+    Spec(GROUP, "tco_dlc_recv_state", F, DLC + "recv", [],
+         binds=[("self.state.ESTABLISHED", "established", BOOL), ("self.state.CLOSE_WAIT", "close_wait", BOOL)],
+         drop=["self.err"], path=[(0, "body")], stmts=[0],
+         note="cut: statement 0 inside `with self.lock`: ENOTCONN unless ESTABLISHED or CLOSE_WAIT"),
 ]
 P = "NfcVerif.FnBridge.Tco."
 BRIDGE = {
     "module": "NfcVerif.Props.FnBridgeTco",
     "theorems": [P + t for t in (
         "send_window_slots_bridge", "recv_window_slots_bridge", "recv_window_slots_collect",
-        "getsockopt_bridge", "dlc_getsockopt_bridge", "ldl_enqueue_check_bridge")],
+        "getsockopt_bridge", "dlc_getsockopt_bridge", "ldl_enqueue_check_bridge",
+        "dlc_send_check_bridge", "dlc_send_seq_bridge", "dlc_send_bridge", "est_acks_bridge", "est_recv_cnt_bridge",
+        "sendack_confirm_bridge", "deq_piggyback_bridge", "deq_necessary_confirm_bridge",
+        "ldl_sendto_check_bridge", "gen_emsgsize", "gen_payload_bound",
+        "dlc_send_state_bridge", "dlc_send_wait_cond_bridge", "dlc_send_dontwait_bridge", "gen_collect_send",
+        "est_nr_bridge", "est_check_bridge", "gen_enqEst_i", "dlc_recv_confs_bridge", "dequeue_fit_bridge",
+        "enqueue_room_bridge", "dlc_setsockopt_bridge", "sendack_bridge", "deq_necessary_bridge",
+        "poll_bridge", "dlc_listen_bridge", "dlc_connect_state_bridge", "dlc_accept_state_bridge",
+        "dlc_recv_state_bridge", "gen_raw_dequeue_always")],
     "properties": ["C05", "C10"],
 }
 
@@ -56,7 +196,91 @@ def inputs(rng, sp):
             for name in ("UI", "I", "SYMM"):
                 for miu in (128, 248):
                     out.append(([], [name, bytes(n), miu]))
+    if sp.lean == "tco_ldl_sendto_check":
+        for n in (0, 1, 127, 128, 129, 300):
+            for dest in (0, 1, 16, 32):
+                for peer in (0, 16, 32):
+                    for sd in (False, False, True):
+                        out.append(([bytes(n), dest], [sd, peer, rng.choice([128, 248])]))
+    if sp.lean == "tco_dlc_send_check":
+        for n in (0, 127, 128, 129, 2175, 2176):
+            for miu in (128, 129, 2175):
+                out.append(([bytes(n)], [miu]))
+    if sp.lean in ("tco_dlc_send_seq", "tco_est_recv_cnt"):
+        out += [([], [v]) for v in range(16)]
+    if sp.lean == "tco_dlc_send_state":
+        for n in (0, 127, 128, 129):
+            for est, cw in ((True, False), (False, True), (False, False)):
+                out.append(([bytes(n)], [est, cw, 128]))
+    if sp.lean == "tco_dlc_send_wait_cond":
+        out += [([], [sl, e]) for sl in range(-1, 17) for e in (True, False)]
+    if sp.lean == "tco_dlc_send_dontwait":
+        out += [([f], []) for f in range(0, 8)]
+    if sp.lean == "tco_est_nr":
+        for name in ("I", "RR", "RNR", "DM", "UI"):
+            for nr in range(16):
+                out.append(([], [name, nr, rng.randrange(16), rng.randrange(0, 100), bool(rng.randrange(2))]))
+    if sp.lean == "tco_est_check":
+        for n in (0, 127, 128, 129, 130):
+            for ns in range(0, 16, 3):
+                out.append(([], [bytes(n), ns, 128, rng.choice([ns, ns, (ns + 1) % 16]), 4, 1]))
+    if sp.lean == "tco_dlc_recv_confs":
+        out += [([], [c, w]) for c in range(0, 17) for w in range(0, 17)]
+    if sp.lean == "tco_deq_piggyback":
+        out += [([], [c, v, a]) for c in range(0, 4) for v in range(16) for a in range(16)]
+    if sp.lean == "tco_dequeue_fit":
+        for name, hs in (("UI", 2), ("I", 3), ("RR", 3), ("DM", 2), ("SNL", 2)):
+            for ln in (hs, hs + 1, hs + 127, hs + 128, hs + 129):
+                for miu in (None, 0, 1, 124, 127, 128, 129):
+                    for icv in (0, 4):
+                        out.append(([miu, icv], [name, ln, hs]))
+    if sp.lean == "tco_enqueue_room":
+        out += [([], [q, b]) for q in range(0, 18) for b in range(0, 18)]
+    if sp.lean == "tco_dlc_setsockopt":
+        for opt in range(0, 8):
+            for v in (-1, 0, 1, 14, 15, 16, 127, 128, 2174, 2175, 2176, 5000):
+                for cl in (True, False):
+                    out.append(([opt, v], [cl, 128, 1, 1, bool(rng.randrange(2))]))
+    if sp.lean == "tco_sendack_cond":
+        out += [([], [c, v, a]) for c in range(0, 3) for v in range(0, 16, 3) for a in range(0, 16, 3)]
+    if sp.lean == "tco_deq_necessary_cond":
+        out += [([], [e, c, sl]) for e in (True, False) for c in range(0, 3) for sl in range(0, 3)]
+    if sp.lean == "tco_poll_send_ready":
+        out += [([], [q, b]) for q in range(0, 4) for b in range(0, 4)]
+    if sp.lean in ("tco_poll_acks", "tco_poll_acks_dec"):
+        out += [([], [a]) for a in range(-1, 5)]
+    if sp.lean == "tco_dlc_listen":
+        out += [([b], [sd, cl, 1]) for b in (0, 1, 16) for sd in (False, True) for cl in (False, True)]
+    if sp.lean == "tco_dlc_connect_state":
+        out += [([], [a, b, c]) for a in (False, True) for b in (False, True) for c in (False, True)]
+    if sp.lean in ("tco_dlc_accept_state", "tco_dlc_recv_state"):
+        out += [([], [a, b]) for a in (False, True) for b in (False, True)]
+    if sp.lean == "tco_est_acks" or sp.lean.endswith("_confirm"):
+        out += [([], [a, b]) for a in range(16) for b in range(16)]
     return out
+
+
+def _ns_after_increment(seg):
+    a = "                send_pdu.ns = self.send_cnt\n"
+    b = "                self.send_cnt = (self.send_cnt + 1) % 16\n"
+    assert a + b in seg
+    return seg.replace(a + b, b + a)
+
+
+def _nth_replace(seg, old, new, n):
+    parts = seg.split(old)
+    assert len(parts) > n + 1, (old, len(parts))
+    return old.join(parts[:n + 1]) + new + old.join(parts[n + 1:])
+
+
+def _piggyback_no_reset(seg):
+    """first `self.recv_confs = 0` of dequeue (the piggy-back branch)"""
+    return _nth_replace(seg, "self.recv_confs = 0", "self.recv_confs = self.recv_confs", 0)
+
+
+def _necessary_no_mod(seg):
+    """second `(self.recv_ack + self.recv_confs) % 16` of dequeue (the necessary ack)"""
+    return _nth_replace(seg, "(self.recv_ack + self.recv_confs) % 16", "(self.recv_ack + self.recv_confs)", 1)
 
 
 MUTATIONS = [
@@ -71,6 +295,43 @@ MUTATIONS = [
     ("tco_ldl_enqueue_check", "MIU test off by one", "len(rcvd_pdu.data) > self.recv_miu",
      "len(rcvd_pdu.data) >= self.recv_miu"),
     ("tco_ldl_enqueue_check", "PDU type filter dropped", 'if not rcvd_pdu.name == "UI":', 'if rcvd_pdu.name == "SYMM":'),
+    ("tco_dlc_send_check", "MIU test of send() off by one", "len(message) > self.send_miu", "len(message) >= self.send_miu"),
+    ("tco_dlc_send_seq", "V(S) modulus", "(self.send_cnt + 1) % 16", "(self.send_cnt + 1) % 8"),
+    ("tco_dlc_send_seq", "N(S) taken after the increment", _ns_after_increment, None),
+    ("tco_est_acks", "acks off by one", "(rcvd_pdu.nr - self.send_ack) % 16", "(rcvd_pdu.nr - self.send_ack + 1) % 16"),
+    ("tco_est_acks", "acks operands swapped", "(rcvd_pdu.nr - self.send_ack) % 16", "(self.send_ack - rcvd_pdu.nr) % 16"),
+    ("tco_est_recv_cnt", "V(R) increment", "(self.recv_cnt + 1) % 16", "(self.recv_cnt + 2) % 16"),
+    ("tco_sendack_confirm", "voluntary ack acknowledges one PDU only",
+     "(self.recv_ack + self.recv_confs) % 16", "(self.recv_ack + 1) % 16"),
+    ("tco_deq_piggyback", "piggy-backed ack does not reset recv_confs", _piggyback_no_reset, None),
+    ("tco_deq_piggyback", "piggy-back condition: or instead of and", "if self.recv_confs and self.recv_cnt != self.recv_ack:\n                        self.log(\"piggyback",
+     "if self.recv_confs or self.recv_cnt != self.recv_ack:\n                        self.log(\"piggyback"),
+    ("tco_sendack_cond", "voluntary ack also without consumed messages", "if self.recv_confs and self.recv_cnt != self.recv_ack:\n                    self.log(\"voluntary", "if self.recv_cnt != self.recv_ack:\n                    self.log(\"voluntary"),
+    ("tco_deq_necessary_cond", "necessary ack one slot early", "and self.recv_window_slots == 0", "and self.recv_window_slots <= 1"),
+    ("tco_poll_send_ready", "send readiness off by one", "return len(self.send_queue) < self.send_buf", "return len(self.send_queue) <= self.send_buf"),
+    ("tco_poll_acks", "acks poll true without acknowledgements", "if self.acks_recvd > 0:\n                    self.acks_recvd = self.acks_recvd - 1", "if self.acks_recvd >= 0:\n                    self.acks_recvd = self.acks_recvd - 1"),
+    ("tco_poll_acks_dec", "acks not consumed", "self.acks_recvd = self.acks_recvd - 1", "self.acks_recvd = self.acks_recvd - 0"),
+    ("tco_dlc_listen", "listen on a socket that is not CLOSED", "if not self.state.CLOSED:\n                self.err(\"listen()", "if False:\n                self.err(\"listen()"),
+    ("tco_dlc_connect_state", "EISCONN / EALREADY swapped", "raise err.Error(errno.EISCONN)", "raise err.Error(errno.EALREADY)"),
+    ("tco_dlc_accept_state", "errno of accept() on a non-listening socket", "raise err.Error(errno.EINVAL)", "raise err.Error(errno.ENOTSUP)"),
+    ("tco_dlc_recv_state", "recv() refused in CLOSE_WAIT", "if not (self.state.ESTABLISHED or self.state.CLOSE_WAIT):\n                self.err(\"recv()", "if not (self.state.ESTABLISHED):\n                self.err(\"recv()"),
+    ("tco_dlc_send_state", "EPIPE / ENOTCONN swapped", "if self.state.CLOSE_WAIT:", "if not self.state.CLOSE_WAIT:"),
+    ("tco_dlc_send_wait_cond", "window test off by one", "while self.send_window_slots == 0 and", "while self.send_window_slots <= 1 and"),
+    ("tco_dlc_send_dontwait", "EWOULDBLOCK replaced by EAGAIN alias check inverted", "if flags & nfc.llcp.MSG_DONTWAIT:", "if not flags & nfc.llcp.MSG_DONTWAIT:"),
+    ("tco_est_nr", "V(SA) not updated", "self.send_ack = rcvd_pdu.nr  # V(SA) := N(R)", "self.send_ack = self.send_ack"),
+    ("tco_est_nr", "RNR / RR busy flags swapped", 'if rcvd_pdu.name == "RNR":\n                    self.mode.SEND_BUSY = True', 'if rcvd_pdu.name == "RNR":\n                    self.mode.SEND_BUSY = False'),
+    ("tco_est_check", "N(S) check dropped", "elif rcvd_pdu.ns != self.recv_cnt:", "elif False:"),
+    ("tco_est_check", "MIU check of a received I PDU off by one", "if len(rcvd_pdu.data) > self.recv_miu:\n                frmr", "if len(rcvd_pdu.data) >= self.recv_miu:\n                frmr"),
+    ("tco_dlc_recv_confs", "window overrun test off by one", "if self.recv_confs > self.recv_win:", "if self.recv_confs >= self.recv_win:"),
+    ("tco_dequeue_fit", "ICV not counted for I PDUs", 'if send_pdu.name in ("UI", "I"):', 'if send_pdu.name in ("UI",):'),
+    ("tco_dequeue_fit", "header not subtracted", "pdu_size - send_pdu.header_size > miu_size", "pdu_size > miu_size"),
+    ("tco_enqueue_room", "receive buffer test off by one", "if len(self.recv_queue) < self.recv_buf:", "if len(self.recv_queue) <= self.recv_buf:"),
+    ("tco_dlc_setsockopt", "receive window clamp", "min(value, 15)", "min(value, 16)"),
+    ("tco_dlc_setsockopt", "recv MIU clamp", "min(value, 2175)", "min(value, 2176)"),
+    ("tco_dlc_setsockopt", "recv_buf not following recv_win", "self.recv_buf = self.recv_win\n                return", "self.recv_buf = self.recv_buf\n                return"),
+    ("tco_deq_necessary_confirm", "necessary ack without the modulus", _necessary_no_mod, None),
+    ("tco_ldl_sendto_check", "peer check dropped", "if self.peer and dest != self.peer:", "if False and dest != self.peer:"),
+    ("tco_ldl_sendto_check", "MIU test of sendto() off by one", "len(message) > self.send_miu", "len(message) > self.send_miu + 1"),
     ("tco_recv_window_slots", "NEUTRAL reordered sum", "self.recv_win - self.recv_cnt + self.recv_ack",
      "self.recv_win + self.recv_ack - self.recv_cnt"),
 ]
